@@ -14,10 +14,10 @@ import (
 
 // CaseFile is one generated Coq cases file together with a JSON rendering of each case for replays.
 type CaseFile struct {
-	Name    string   `json:"name"`    // file name relative to the out dir
-	Kind    string   `json:"kind"`    // what the file compares
-	Count   int      `json:"count"`   // number of cases
-	Replays []string `json:"-"`       // JSON of each case (index = case id)
+	Name    string   `json:"name"`  // file name relative to the out dir
+	Kind    string   `json:"kind"`  // what the file compares
+	Count   int      `json:"count"` // number of cases
+	Replays []string `json:"-"`     // JSON of each case (index = case id)
 }
 
 // Violation is a property failure seen directly on the implementation by a monitor.
@@ -73,7 +73,7 @@ func (c *Ctx) Pick(q, t int) int {
 	return q
 }
 
-func (c *Ctx) Count(key string) { c.Res.Distribution[key]++ }
+func (c *Ctx) Count(key string)         { c.Res.Distribution[key]++ }
 func (c *Ctx) CountN(key string, n int) { c.Res.Distribution[key] += n }
 
 // Eval records one executed case; key identifies it for distinctness, nontrivial says whether it counts.
@@ -97,7 +97,9 @@ func (c *Ctx) Violate(class, what string, replay interface{}) {
 	}
 }
 
-func (c *Ctx) Note(f string, a ...interface{}) { c.Res.Notes = append(c.Res.Notes, fmt.Sprintf(f, a...)) }
+func (c *Ctx) Note(f string, a ...interface{}) {
+	c.Res.Notes = append(c.Res.Notes, fmt.Sprintf(f, a...))
+}
 
 // Emit writes a cases file (sharded to at most perFile cases each) and its replay side file.
 func (c *Ctx) Emit(name, kind string, imports []string, caseType, checker string, cases []gal.Term, replays []string, perFile int) {
